@@ -31,10 +31,11 @@ theorem killed_only_if_kill (cap : Nat) (sc : Script) (ls : List Label) (s : Sys
   (run_inv KInv_step (init cap sc) s ls (KInv_init cap sc) hr).1
 
 /-- `killed_iff_consumed`: on_stop(killed = true) begins in exactly the step that consumes the kill
-    signal; every other way of reaching on_stop passes killed = false. -/
+    signal - the poll of the control channel, or the second look at it when the loop has just found the stop
+    marker or the closed mailbox; every other way of reaching on_stop passes killed = false. -/
 theorem killed_iff_consumed (s s' : Sys) (l : Label) (hs : step? s l = some s')
     (k r m : Bool) (hpc : s'.pc = .stopping k r m) (hnot : ∀ k r m, s.pc ≠ .stopping k r m) :
-    (k = true ↔ (l = .pollTerm ∧ s.termSlot = true)) := by
+    (k = true ↔ ((l = .pollTerm ∨ l = .pollMail) ∧ s.termSlot = true)) := by
   step_cases l hs
   all_goals (try (simp at hpc; done))
   all_goals (try (exfalso; simp at hpc; exact hnot _ _ _ hpc; done))
